@@ -379,30 +379,30 @@ theorem K_lt_length (c : Cal) (a : Int) (h0 : c.t0 ≤ a) (h1 : a ≤ c.t1) (hB 
   rw [bdays_split_at c a h0 h1 hB]; simp [K, cnt]
 
 theorem clockOf_bday (c : Cal) (a : Int) (h0 : c.t0 ≤ a) (h1 : a ≤ c.t1) (hB : c.isB a = true) :
-    c.clockOf a = .ok (K c a) := by
-  unfold Cal.clockOf
+    clockOfT c.bdays a = .ok (K c a) := by
+  unfold clockOfT
   rw [bdays_split_at c a h0 h1 hB, idxIn_append_cons]
   · rfl
   · intro hm; rw [mem_bd] at hm; omega
 
-theorem clockOf_ok (c : Cal) (a : Int) (i : Nat) (h : c.clockOf a = .ok i) :
+theorem clockOf_ok (c : Cal) (a : Int) (i : Nat) (h : clockOfT c.bdays a = .ok i) :
     c.t0 ≤ a ∧ a ≤ c.t1 ∧ c.isB a = true ∧ i = K c a := by
-  unfold Cal.clockOf at h
+  unfold clockOfT at h
   split at h
   · next j hj =>
     have hm := idxIn_some_mem a _ j hj
     unfold Cal.bdays at hm
     rw [mem_bd] at hm
     have := clockOf_bday c a hm.1 hm.2.1 hm.2.2
-    unfold Cal.clockOf at this
+    unfold clockOfT at this
     rw [hj] at this
     simp at this h
     exact ⟨hm.1, hm.2.1, hm.2.2, by omega⟩
   · cases h
 
 theorem atIdx_K (c : Cal) (a : Int) (h0 : c.t0 ≤ a) (h1 : a ≤ c.t1) (hB : c.isB a = true) :
-    c.atIdx (K c a) = .ok a := by
-  unfold Cal.atIdx
+    atIdxT c.bdays (K c a) = .ok a := by
+  unfold atIdxT
   have : ¬ ((K c a : Int) < 0) := by omega
   simp only [this, if_false, Int.toNat_natCast]
   rw [bdays_split_at c a h0 h1 hB]
@@ -410,9 +410,9 @@ theorem atIdx_K (c : Cal) (a : Int) (h0 : c.t0 ≤ a) (h1 : a ≤ c.t1) (hB : c.
   unfold K cnt
   rw [this]
 
-theorem atIdx_ok (c : Cal) (j r : Int) (h : c.atIdx j = .ok r) :
+theorem atIdx_ok (c : Cal) (j r : Int) (h : atIdxT c.bdays j = .ok r) :
     0 ≤ j ∧ c.t0 ≤ r ∧ r ≤ c.t1 ∧ c.isB r = true ∧ j = K c r := by
-  unfold Cal.atIdx at h
+  unfold atIdxT at h
   split at h
   · cases h
   · next hj =>
@@ -424,7 +424,7 @@ theorem atIdx_ok (c : Cal) (j r : Int) (h : c.atIdx j = .ok r) :
       unfold Cal.bdays at hm'
       rw [mem_bd] at hm'
       have hk := atIdx_K c r' hm'.1 hm'.2.1 hm'.2.2
-      unfold Cal.atIdx at hk
+      unfold atIdxT at hk
       have : ¬ ((K c r' : Int) < 0) := by omega
       simp only [this, if_false, Int.toNat_natCast] at hk
       split at hk
@@ -437,8 +437,8 @@ theorem atIdx_ok (c : Cal) (j r : Int) (h : c.atIdx j = .ok r) :
       · cases hk
     · cases h
 
-theorem atIdx_lt (c : Cal) (j : Int) (h0 : 0 ≤ j) (h1 : j < c.bdays.length) : ∃ r, c.atIdx j = .ok r := by
-  unfold Cal.atIdx
+theorem atIdx_lt (c : Cal) (j : Int) (h0 : 0 ≤ j) (h1 : j < c.bdays.length) : ∃ r, atIdxT c.bdays j = .ok r := by
+  unfold atIdxT
   have : ¬ (j < 0) := by omega
   simp only [this, if_false]
   have hlt : j.toNat < c.bdays.length := by omega
@@ -464,7 +464,7 @@ theorem add_spec (c : Cal) (a : Adj) (t n : Int) (h : InRange c (c.adjust a t) n
     ∃ r, c.add a t n = .ok r ∧ c.isB r = true ∧ c.t0 ≤ r ∧ r ≤ c.t1 ∧ (K c r : Int) = K c (c.adjust a t) + n := by
   obtain ⟨h0, h1, hB, hj0, hj1⟩ := h
   generalize hs : c.adjust a t = s at *
-  unfold Cal.add
+  unfold Cal.add Cal.addT
   rw [hs]
   by_cases hn : n.natAbs > 1
   · -- table path
@@ -531,12 +531,12 @@ theorem add_spec (c : Cal) (a : Adj) (t n : Int) (h : InRange c (c.adjust a t) n
 /-! ### `Calendar.drange(.., '1b')` -/
 
 theorem mapM_atIdx_slice (c : Cal) : ∀ (mid pre post : List Int), c.bdays = pre ++ mid ++ post →
-    ((List.range mid.length).map (fun (i : Nat) => (pre.length : Int) + (i : Int) * 1)).mapM c.atIdx = .ok mid
+    ((List.range mid.length).map (fun (i : Nat) => (pre.length : Int) + (i : Int) * 1)).mapM (atIdxT c.bdays) = .ok mid
   | [], pre, post, _ => rfl
   | x :: mid, pre, post, h => by
     rw [List.length_cons, List.range_succ_eq_map, List.map_cons, List.mapM_cons]
-    have hx : c.atIdx ((pre.length : Int) + ((0 : Nat) : Int) * 1) = .ok x := by
-      unfold Cal.atIdx
+    have hx : atIdxT c.bdays ((pre.length : Int) + ((0 : Nat) : Int) * 1) = .ok x := by
+      unfold atIdxT
       have : ¬ ((pre.length : Int) + ((0 : Nat) : Int) * 1 < 0) := by omega
       simp only [this, if_false]
       have e : ((pre.length : Int) + ((0 : Nat) : Int) * 1).toNat = pre.length := by omega
@@ -553,8 +553,8 @@ theorem mapM_atIdx_slice (c : Cal) : ∀ (mid pre post : List Int), c.bdays = pr
     rfl
 
 
-theorem atIdx_of_getElem? (c : Cal) (i : Nat) (a : Int) (h : c.bdays[i]? = some a) : c.atIdx i = .ok a := by
-  unfold Cal.atIdx
+theorem atIdx_of_getElem? (c : Cal) (i : Nat) (a : Int) (h : c.bdays[i]? = some a) : atIdxT c.bdays i = .ok a := by
+  unfold atIdxT
   have : ¬ ((i : Int) < 0) := by omega
   simp [this, h]
 
